@@ -71,7 +71,7 @@ func protoOf(kind string) string {
 	return "tcp"
 }
 
-var scenarioKinds = []string{"squat-in-window", "last-port", "udp-second-close", "reserved-in-window", "quota-paths", "group-lifecycle"}
+var scenarioKinds = []string{"squat-in-window", "last-port", "udp-second-close", "reserved-in-window", "quota-paths", "group-lifecycle", "remembered-after-refusal"}
 
 func scenarioCase(c *h.Case, i int) {
 	kind := scenarioKinds[i%len(scenarioKinds)]
@@ -90,6 +90,8 @@ func scenarioCase(c *h.Case, i int) {
 		quotaPaths(c, variant)
 	case "group-lifecycle":
 		groupLifecycle(c, variant)
+	case "remembered-after-refusal":
+		rememberedAfterRefusal(c, variant)
 	}
 	run.Count("scenario_"+kind, 1)
 }
@@ -541,4 +543,92 @@ func groupLifecycle(c *h.Case, variant int) {
 	}
 	w.finish()
 	distinct(w, fmt.Sprintf("group-lifecycle|zero=%v|m%d|%v", zero, nMem, order), nil)
+}
+
+// rememberedAfterRefusal: name N got server-chosen port P and closed. A registration under N that the port manager
+// refuses (port owned by another live proxy / outside allowPorts / held by another program / nothing available) must
+// not touch what the server remembers for N: the next request for a server-chosen port, with P free, gets P.
+func rememberedAfterRefusal(c *h.Case, variant int) {
+	rng := c.Rng
+	proto := []string{"tcp", "udp"}[variant%2]
+	w, err := newWorld(c, worldCfg{NAllowed: 4 + rng.Intn(3), Quota: []int{0, 0, 3}[rng.Intn(3)]})
+	if err != nil {
+		run.Inconclusive("server start failed")
+		return
+	}
+	defer w.close()
+	N := w.pfx + "n"
+	al := shuffled(rng, w.allowedList())
+	O := al[0]
+	if o := w.reg(2, w.pfx+"o", proto, O, "", ""); !o.OK {
+		run.Inconclusive("rememberedAfterRefusal: setup registration refused")
+		return
+	}
+	first := w.reg(1, N, proto, 0, "", "")
+	if !first.OK {
+		run.Inconclusive("rememberedAfterRefusal: first registration refused")
+		return
+	}
+	P := first.Port
+	w.closeP(1, N)
+	reasons := []string{"owned", "outside", "squatted", "none-available"}
+	rng.Shuffle(len(reasons), func(i, j int) { reasons[i], reasons[j] = reasons[j], reasons[i] })
+	var done []string
+	for _, reason := range reasons {
+		s := []int{1, 1, 3}[rng.Intn(3)] // the memory belongs to the name, not to the session
+		var r opOut
+		switch reason {
+		case "owned":
+			r = w.reg(s, N, proto, O, "", "")
+		case "outside":
+			r = w.reg(s, N, proto, pick(rng, w.outside), "", "")
+		case "squatted":
+			S := -1
+			for _, p := range al[1:] {
+				if p != P {
+					S = p
+					break
+				}
+			}
+			if S < 0 || !w.squat(harnessClient, proto, S) {
+				continue
+			}
+			r = w.reg(s, N, proto, S, "", "")
+			w.unsquat(harnessClient, proto, S)
+		case "none-available":
+			var held []int
+			for _, p := range al[1:] {
+				if w.squat(harnessClient, proto, p) {
+					held = append(held, p)
+				}
+			}
+			r = w.reg(s, N, proto, 0, "", "")
+			for _, p := range held {
+				w.unsquat(harnessClient, proto, p)
+			}
+		}
+		if r.Unk {
+			return
+		}
+		if r.OK { // not refused: the reference allocator judges that; give the port back and go on
+			w.closeP(s, N)
+			continue
+		}
+		run.Count("refusal_then_server_chosen_port", 1)
+		done = append(done, reason+"/"+errClass(r.Err))
+		if b, ok := isBound(proto, P); !ok || b {
+			continue // P is not free: nothing to demand
+		}
+		again := w.reg(s, N, proto, 0, "", "")
+		if again.OK && again.Port != P {
+			c.Violation("remembered-port-forgotten-after-refused-registration-"+proto,
+				"%s proxy %s held server-chosen port %d and closed; a registration under that name was refused (%s: %s); the next request for a server-chosen port got %d although %d is free (allowPorts %v)",
+				proto, N, P, reason, r.Err, again.Port, P, w.allowedList())
+		}
+		if again.OK {
+			w.closeP(s, N)
+		}
+	}
+	w.finish()
+	distinct(w, fmt.Sprintf("remembered-after-refusal|%s|%v", proto, done), nil)
 }
